@@ -854,6 +854,15 @@ func (vc *VC) execCall(fr *Frame, st *State, reach string, instr ssa.Instruction
 	default:
 		if callee.Blocks != nil && vc.P.repoPkgs[pkgOf(callee)] {
 			vc.notes = append(vc.notes, fmt.Sprintf("%s: call to %s without contract: everything reachable is havocked", fr.key, key))
+		} else if externRefFree(callee, common) {
+			// A-EXTPURE: a library function without contract that is handed no reference (only numbers, strings, times
+			// and boxed values of these) cannot reach an object of the repository; it is given an unknown result and no
+			// effect on the state the contracts talk about (process-wide effects - files, standard output, exit - are
+			// excluded by package / name, see externRefFree)
+			vc.trusted["unmodelled external call "+key+" with reference-free arguments: unknown result, no effect on repository state (A-EXTPURE)"] = true
+			res = vc.freshResults(st, resT, callee.Name())
+			vc.ghostPoint(fr, st, reach, "after", what, n, key)
+			return res
 		} else {
 			vc.notes = append(vc.notes, fmt.Sprintf("%s: unmodelled external call %s: everything reachable is havocked", fr.key, key))
 			vc.unmodelled[key] = true
@@ -1988,4 +1997,104 @@ func (P *Prog) madeIface() map[string]bool {
 		visit(fn)
 	}
 	return P.madeIfaceSet
+}
+
+
+// externRefFree reports whether a call to a library function can be treated as free of effects on the state the
+// contracts describe: the callee is not one of the process-wide effectful functions and every argument is
+// reference-free (numbers, strings, time values, structs / arrays of these, or a variadic slice of boxed values of these).
+func externRefFree(callee *ssa.Function, common *ssa.CallCommon) bool {
+	pk := pkgOf(callee)
+	if pk == nil {
+		return false
+	}
+	switch pk.Path() {
+	case "os", "io", "io/ioutil", "bufio", "syscall", "os/exec", "os/signal", "runtime", "unsafe", "reflect", "encoding/csv", "sync", "sync/atomic", "net", "net/http":
+		return false
+	case "fmt":
+		n := callee.Name()
+		if strings.HasPrefix(n, "Print") || strings.HasPrefix(n, "Fprint") || strings.HasPrefix(n, "Scan") || strings.HasPrefix(n, "Fscan") || strings.HasPrefix(n, "Sscan") {
+			return false
+		}
+	case "log":
+		n := callee.Name()
+		if strings.HasPrefix(n, "Fatal") || strings.HasPrefix(n, "Panic") || strings.HasPrefix(n, "Set") {
+			return false
+		}
+	}
+	if callee.Signature.Recv() != nil {
+		// methods: the receiver is the first argument and is checked like the others
+	}
+	for _, a := range common.Args {
+		if !refFreeValue(a, 0) {
+			return false
+		}
+	}
+	return true
+}
+
+func refFreeType(t types.Type, depth int) bool {
+	if depth > 4 {
+		return false
+	}
+	if n, ok := t.(*types.Named); ok && n.Obj().Pkg() != nil && n.Obj().Pkg().Path() == "time" {
+		switch n.Obj().Name() {
+		case "Time", "Duration", "Month", "Weekday":
+			return true
+		}
+	}
+	switch u := under(t).(type) {
+	case *types.Basic:
+		return u.Kind() != types.UnsafePointer
+	case *types.Struct:
+		for i := 0; i < u.NumFields(); i++ {
+			if !refFreeType(u.Field(i).Type(), depth+1) {
+				return false
+			}
+		}
+		return true
+	case *types.Array:
+		return refFreeType(u.Elem(), depth+1)
+	}
+	return false
+}
+
+func refFreeValue(v ssa.Value, depth int) bool {
+	if depth > 3 {
+		return false
+	}
+	if refFreeType(v.Type(), 0) {
+		return true
+	}
+	switch x := v.(type) {
+	case *ssa.Const:
+		return x.Value == nil // nil slice / nil interface
+	case *ssa.MakeInterface:
+		return refFreeType(x.X.Type(), 0)
+	case *ssa.Slice:
+		// the variadic argument: new [n]interface{} filled with boxed values, sliced once
+		al, ok := x.X.(*ssa.Alloc)
+		if !ok || x.Low != nil || x.High != nil {
+			return false
+		}
+		for _, r := range *al.Referrers() {
+			switch y := r.(type) {
+			case *ssa.Slice:
+				if y != x {
+					return false
+				}
+			case *ssa.IndexAddr:
+				for _, r2 := range *y.Referrers() {
+					st, ok := r2.(*ssa.Store)
+					if !ok || st.Addr != y || !refFreeValue(st.Val, depth+1) {
+						return false
+					}
+				}
+			default:
+				return false
+			}
+		}
+		return true
+	}
+	return false
 }
